@@ -351,10 +351,21 @@ class Behavior(_IModel):
         relaxes and moves time on — calling it to *read* a stress would step a
         rate-dependent material forward again.
         """
-        eps6_e_pg = self.Compute_strain_6d(eps_e_pg, z_e_pg, 0.0)
-        sig6_e_pg = self.Compute_sigma(eps6_e_pg, z_e_pg)
+        eps_e_pg = FeArray.asfearray(eps_e_pg)
         if self.dim == 3:
-            return sig6_e_pg
+            return self.Compute_sigma(eps_e_pg, z_e_pg)
+
+        eps6_e_pg = FeArray.zeros(*eps_e_pg.shape[:2], 6, dtype=float)
+        eps6_e_pg[..., IDX_2D] = eps_e_pg
+        sig6_e_pg = self.Compute_sigma(eps6_e_pg, z_e_pg)
+        if self.planeStress:
+            # the state is frozen, so the stress is affine in the strain with slope C: one
+            # linear solve zeroes the out-of-plane stress. Nothing flows, so no dt is needed
+            # (the plane-stress solve of Integrate would flow again, and divide by dt = 0).
+            C_oo = self._C_e_pg(*eps_e_pg.shape[:2])[..., IDX_OUT, :][..., :, IDX_OUT]
+            r_e_pg = sig6_e_pg[..., IDX_OUT]
+            eps6_e_pg[..., IDX_OUT] = -np.linalg.solve(C_oo, r_e_pg[..., None])[..., 0]
+            sig6_e_pg = self.Compute_sigma(eps6_e_pg, z_e_pg)
         return sig6_e_pg[..., IDX_2D]
 
     # --------------------------------------------------------------------------
